@@ -208,10 +208,15 @@ class FA(Automaton, metaclass=abc.ABCMeta):
     def _validate_reserved_names(self) -> None:
         """
         Raise an error if a name the library reserves for itself is used:
-        None marks the absence of a state.
+        None marks the absence of a state, and the empty string marks a
+        lambda transition.
         """
         if None in self.states:
             raise exceptions.InvalidStateError("None cannot be used as a state name")
+        if "" in self.input_symbols:
+            raise exceptions.InvalidSymbolError(
+                "the empty string cannot be used as an input symbol"
+            )
 
     @staticmethod
     def _add_new_state(state_set: Set[FAStateT], start: int = 0) -> int:
